@@ -403,8 +403,46 @@ func constUint(v ssa.Value) (uint64, bool) {
 //     built on unicode.IsDigit / IsNumber): "-5" becomes "5";
 //   - every component of a split ID handed to strconv.ParseUint (directly in a
 //     loop over the components): a negative vertical index is refused.
+//
+// slashPredicate: the rune predicate compares its argument with the ID delimiter '/'.
+func slashPredicate(v ssa.Value) bool {
+	var fn *ssa.Function
+	switch x := resolve(v).(type) {
+	case *ssa.Function:
+		fn = x
+	case *ssa.MakeClosure:
+		fn, _ = x.Fn.(*ssa.Function)
+	}
+	if fn == nil || fn.Blocks == nil || len(fn.Params) != 1 {
+		return false
+	}
+	hit := false
+	instrs(fn, func(in ssa.Instruction) {
+		b, ok := in.(*ssa.BinOp)
+		if !ok || (b.Op != token.EQL && b.Op != token.NEQ) {
+			return
+		}
+		for _, pr := range [][2]ssa.Value{{b.X, b.Y}, {b.Y, b.X}} {
+			subj := stripConv(pr[0])
+			if cv, ok := subj.(*ssa.Convert); ok {
+				subj = stripConv(cv.X) // string(r)
+			}
+			if subj == ssa.Value(fn.Params[0]) {
+				if k, ok := constInt(pr[1]); ok && k == '/' {
+					hit = true
+				}
+				// string(r) == "/"
+				if ks, ok := constString(pr[1]); ok && ks == "/" {
+					hit = true
+				}
+			}
+		}
+	})
+	return hit
+}
+
 func ruleSignedField(w *World, r *Report) {
-	r.Rule("SIGNED-FIELD", "the components of an ID are cut at the delimiter and read as signed integers: no digit-run tokenizer (strings.FieldsFunc with a unicode.IsDigit predicate drops the minus sign of the vertical index) and no strconv.ParseUint over all components of a split ID (a negative vertical index is refused)")
+	r.Rule("SIGNED-FIELD", "the components of an ID are cut at the delimiter and read as signed integers: no digit-run tokenizer (strings.FieldsFunc with a unicode.IsDigit predicate drops the minus sign of the vertical index), no strings.FieldsFunc at the delimiter itself (it drops empty components instead of refusing them) and no strconv.ParseUint over all components of a split ID (a negative vertical index is refused)")
 	n := 0
 	digitPredicate := func(v ssa.Value) bool {
 		var fn *ssa.Function
@@ -488,6 +526,40 @@ func ruleSignedField(w *World, r *Report) {
 				if digitPredicate(c.Call.Args[1]) {
 					r.Add(Obligation{Rule: "SIGNED-FIELD", Key: key, Pos: w.Pos(c.Pos()), Status: Violated, Canary: can,
 						Detail: "the string is cut into runs of digits (strings.FieldsFunc with a unicode.IsDigit predicate): the minus sign of a negative vertical index is treated as a separator and dropped (\"6/24/53/7/-5\" yields 5)"})
+				} else if slashPredicate(c.Call.Args[1]) {
+					// cutting at the delimiter with FieldsFunc drops empty fields: "1//3/4/5/6" has five
+					// tokens and "1//3/4/5" four separators.  Only a count of the separators together
+					// with a count of the tokens refuses both
+					lenTaken, counted := false, false
+					if c.Referrers() != nil {
+						for _, ref := range *c.Referrers() {
+							// len(tokens) compared with a constant (not the bound of a range loop)
+							if lc, ok := ref.(*ssa.Call); ok && builtinName(lc) == "len" && lc.Referrers() != nil {
+								for _, r2 := range *lc.Referrers() {
+									if b, ok := r2.(*ssa.BinOp); ok {
+										if _, isK := constInt(b.X); isK {
+											lenTaken = true
+										}
+										if _, isK := constInt(b.Y); isK {
+											lenTaken = true
+										}
+									}
+								}
+							}
+						}
+					}
+					instrs(f, func(in2 ssa.Instruction) {
+						if cc, ok := in2.(*ssa.Call); ok && calleeIs(cc, "strings", "Count") {
+							counted = true
+						}
+					})
+					if lenTaken && counted {
+						r.Add(Obligation{Rule: "SIGNED-FIELD", Key: key, Pos: w.Pos(c.Pos()), Status: Undecided, Canary: can,
+							Detail: "an ID is cut with strings.FieldsFunc (empty fields are dropped); the function counts both separators and tokens, whether that refuses every empty field was not decided"})
+					} else {
+						r.Add(Obligation{Rule: "SIGNED-FIELD", Key: key, Pos: w.Pos(c.Pos()), Status: Violated, Canary: can,
+							Detail: "an ID is cut at the delimiter with strings.FieldsFunc, which drops empty fields: an ID with an empty component (\"1//3/4/5\", \"1/2/3/4/\") is read as if the component were not there instead of being refused"})
+					}
 				} else {
 					r.Add(Obligation{Rule: "SIGNED-FIELD", Key: key, Pos: w.Pos(c.Pos()), Status: Undecided, Canary: can,
 						Detail: "a string is tokenised with strings.FieldsFunc; the predicate was not read"})
@@ -729,6 +801,9 @@ func ruleIndexSign(w *World, r *Report) {
 			key := fmt.Sprintf("INDEX-SIGN / %s / index#%d", name, ord)
 			if lower {
 				r.Add(Obligation{Rule: "INDEX-SIGN", Key: key, Pos: w.Pos(in.Pos()), Status: Discharged, Canary: can, Detail: "the index " + p.Name() + " is bounded on both sides"})
+			} else if f.Parent() != nil && !can {
+				// a function literal: what it is called with is decided where it is invoked
+				r.Add(Obligation{Rule: "INDEX-SIGN", Key: key, Pos: w.Pos(in.Pos()), Status: Undecided, Canary: can, Detail: "the index " + p.Name() + " is the parameter of a function literal and is tested from above only; the values it is invoked with were not resolved"})
 			} else if st, why := callersBoundBelow(w, f, paramIndex(f, p)); !can && f.Object() != nil && !f.Object().Exported() && st != Violated {
 				// a private helper: the lower bound may be the callers' business
 				r.Add(Obligation{Rule: "INDEX-SIGN", Key: key, Pos: w.Pos(in.Pos()), Status: st, Canary: can, Detail: "the index " + p.Name() + " of a private helper is tested from above only; " + why})
